@@ -37,6 +37,21 @@ pub struct Inject {
     pub basis: String,
     /// stream ids that must never reach the application
     pub never_surface: Vec<u32>,
+    /// message keys that must be delivered completely (valid messages): (key, body bytes)
+    #[serde(default)]
+    pub must_deliver: Vec<(u32, usize)>,
+    /// message keys whose head must not be delivered by the receive API
+    #[serde(default)]
+    pub no_head: Vec<u32>,
+    /// message keys whose body must not end cleanly
+    #[serde(default)]
+    pub no_clean_end: Vec<u32>,
+    /// property the reaction is reported under (C09 catalogue / C13 HTTP validity)
+    #[serde(default)]
+    pub prop: String,
+    /// RST_STREAM/GOAWAY demanded only while the stream is still open: skip the wire demand
+    #[serde(default)]
+    pub wire_optional: bool,
 }
 
 #[derive(Clone, Debug, Serialize, Deserialize)]
@@ -121,7 +136,7 @@ pub const N_ITEMS_SERVER: usize = 78;
 
 #[allow(clippy::too_many_lines)]
 fn server_item(k: usize, t: &mut Tape, target: u32, state: &str, next_id: u32, cfg: &Cfg) -> Option<(Vec<PStep>, Inject)> {
-    let mk = |item: &str, class: Class, stream: u32, basis: &str, never: Vec<u32>| Inject { item: item.into(), state: state.into(), class, stream, basis: basis.into(), never_surface: never };
+    let mk = |item: &str, class: Class, stream: u32, basis: &str, never: Vec<u32>| Inject { item: item.into(), state: state.into(), class, stream, basis: basis.into(), never_surface: never, must_deliver: vec![], no_head: vec![], no_clean_end: vec![], prop: "C09".into(), wire_optional: false };
     let has_stream = state != "none";
     let s = target;
     let idle = next_id; // an id never used so far
@@ -411,6 +426,7 @@ pub fn common_raw_oracles(case: &RawCase, rr: &RawRun, an: &Analysed, out: &mut 
     check_wire_basic(&an.tap, &an.av, &sides, out);
     check_c02(&an.tap, &an.av, &sides, out);
     check_c04(&an.tap, &an.av, &sides, out);
+    check_c13_emitted(&an.tap, &sides, out);
     if let RunEnd::BusyLoop(t) = &rr.run.end {
         out.fail("C08", "busy-loop", format!("C08/busy-loop/{}", strip_digits(t)), format!("task {} keeps waking itself without any progress", t));
     }
@@ -424,6 +440,7 @@ pub fn check_c09(case: &RawCase, rr: &RawRun, an: &Analysed, out: &mut Outcome) 
         Some(i) => i,
         None => return,
     };
+    let prop: &str = if inj.prop.is_empty() { "C09" } else { &inj.prop };
     let e = case.h2_side;
     let role = e.name();
     out.label(format!("item:{}", inj.item));
@@ -458,46 +475,76 @@ pub fn check_c09(case: &RawCase, rr: &RawRun, an: &Analysed, out: &mut Outcome) 
     let goaway_err = after.iter().find_map(|f| if let Ok(Frame::GoAway { code, .. }) = &f.frame { if *code != 0 { Some(*code) } else { None } } else { None });
     let any_goaway_err_ever = an.tap.frames.iter().any(|f| f.from == e && matches!(&f.frame, Ok(Frame::GoAway { code, .. }) if *code != 0));
     let rst_on = |s: u32| after.iter().find_map(|f| if let Ok(Frame::Rst { stream, code }) = &f.frame { if *stream == s && *code != 0 { Some(*code) } else { None } } else { None });
-    let probe_answered = an.tap.frames.iter().any(|f| f.from == e && f.raw.stream == case.probe_stream && matches!(&f.frame, Ok(Frame::Headers { .. })));
+    let probe_answered = if e == Side::Server {
+        an.tap.frames.iter().any(|f| f.from == e && f.raw.stream == case.probe_stream && matches!(&f.frame, Ok(Frame::Headers { .. })))
+    } else {
+        // client under test: its second request (key = probe_stream) got its response
+        rr.run.events.iter().any(|ev| ev.side == e && ev.key == case.probe_stream && matches!(&ev.api, Api::RecvHead { kind: "response", .. }))
+    };
     let conn_done_err = rr.run.events.iter().any(|ev| ev.side == e && matches!(&ev.api, Api::ConnDone { result: Err(_) }));
     let surfaced: Vec<u32> = rr.run.events.iter().filter(|ev| ev.side == e).filter_map(|ev| if let Api::Accepted { stream } = &ev.api { Some(*stream) } else { None }).collect();
-    let sig = |what: &str| format!("C09/{}/{}/{}/{}", role, inj.item, inj.state, what);
+    let sig = |what: &str| if prop == "C13" { format!("C13/{}/{}/{}", role, inj.state, what) } else { format!("{}/{}/{}/{}/{}", prop, role, inj.item, inj.state, what) };
     for s in &inj.never_surface {
         if surfaced.contains(s) {
-            out.fail("C09", "containment/surfaced", sig("illegal-frame-surfaced"), format!("{}: stream {} created by the forbidden frame reached the application ({})", inj.item, s, inj.basis));
+            out.fail(prop, "containment/surfaced", sig("illegal-frame-surfaced"), format!("{}: stream {} created by the forbidden frame reached the application ({})", inj.item, s, inj.basis));
         }
     }
+    // ---- delivery demands (HTTP validity items)
+    let (_, recv) = views(&rr.run.events);
+    for key in &inj.no_head {
+        if let Some(r) = recv.get(&(*key, e.other())) {
+            if r.heads.iter().any(|h| h.0 == "request" || h.0 == "response" || h.0 == "push-request") {
+                out.fail("C13", "http/malformed-delivered", format!("C13/{}/{}/malformed-message-delivered", role, inj.state), format!("{}: the receive API handed a head for message key {} to the application although its header section is malformed — {}", inj.item, key, inj.basis));
+            }
+        }
+    }
+    for key in &inj.no_clean_end {
+        if let Some(r) = recv.get(&(*key, e.other())) {
+            if r.clean_end.is_some() {
+                out.fail("C13", "http/clean-end", format!("C13/{}/{}/malformed-message-ends-cleanly", role, inj.state), format!("{}: message key {} was reported as a clean end ({} bytes, trailers {:?}) although it is malformed — {}", inj.item, key, r.bytes, r.clean_end.as_ref().map(|t| t.is_some()), inj.basis));
+            }
+        }
+    }
+    for (key, bytes) in &inj.must_deliver {
+        let ok = recv.get(&(*key, e.other())).map(|r| r.clean_end.is_some() && r.bytes == *bytes && r.content_ok).unwrap_or(false);
+        if !ok && rr.run.panic.is_none() && rr.obs.script_done {
+            let got = recv.get(&(*key, e.other())).map(|r| format!("heads {} bytes {} clean_end {} err {:?}", r.heads.len(), r.bytes, r.clean_end.is_some(), r.err.as_ref().map(|x| &x.1.text)));
+            out.fail("C09", "tolerance/valid-message", format!("C09/{}/{}/valid-message-not-delivered", role, inj.item), format!("{}: a valid message (key {}, {} body bytes) was not delivered completely: {:?} — {}", inj.item, key, bytes, got, inj.basis));
+        }
+    }
+    let wire_demand = !inj.wire_optional;
     match inj.class {
+        Class::Stream if !wire_demand => {}
         Class::Conn => {
             if goaway_err.is_none() {
                 out.fail(
-                    "C09",
+                    prop,
                     "reaction/connection-error",
                     sig("no-goaway"),
                     format!("{} in state {}: required reaction is a connection error, but {} sent no GOAWAY with an error code afterwards (frames after: {:?}) — {}", inj.item, inj.state, role, after.iter().take(6).map(|f| f.frame.as_ref().map(|x| x.kind()).unwrap_or("?")).collect::<Vec<_>>(), inj.basis),
                 );
             } else if !conn_done_err && rr.run.end == RunEnd::Quiescent && rr.run.panic.is_none() {
-                out.fail("C09", "reaction/connection-not-ended", sig("connection-survives-goaway"), format!("{}: GOAWAY({}) was sent but the connection future did not end with an error", inj.item, goaway_err.unwrap()));
+                out.fail(prop, "reaction/connection-not-ended", sig("connection-survives-goaway"), format!("{}: GOAWAY({}) was sent but the connection future did not end with an error", inj.item, goaway_err.unwrap()));
             }
         }
         Class::Stream => {
             let r = rst_on(inj.stream);
             if r.is_none() && goaway_err.is_none() {
                 out.fail(
-                    "C09",
+                    prop,
                     "reaction/stream-error",
                     sig("no-rst-stream"),
                     format!("{} in state {}: required reaction is at least RST_STREAM on stream {}, but neither RST_STREAM nor GOAWAY followed — {}", inj.item, inj.state, inj.stream, inj.basis),
                 );
             } else if r.is_some() && goaway_err.is_none() && !probe_answered && rr.obs.script_done {
-                out.fail("C09", "containment/other-streams", sig("other-streams-stop-working"), format!("{}: stream error was signalled but a following request on stream {} got no response", inj.item, case.probe_stream));
+                out.fail(prop, "containment/other-streams", sig("other-streams-stop-working"), format!("{}: stream error was signalled but a following request on stream {} got no response", inj.item, case.probe_stream));
             }
         }
         Class::Legal => {
             if any_goaway_err_ever {
                 let code = an.tap.frames.iter().find_map(|f| if let (true, Ok(Frame::GoAway { code, .. })) = (f.from == e, &f.frame) { Some(*code) } else { None });
                 out.fail(
-                    "C09",
+                    prop,
                     "tolerance/goaway",
                     sig("legal-traffic-ends-connection"),
                     format!("{} in state {}: the RFC permits this, yet {} answered with GOAWAY({:?}) — {}", inj.item, inj.state, role, code, inj.basis),
@@ -505,9 +552,9 @@ pub fn check_c09(case: &RawCase, rr: &RawRun, an: &Analysed, out: &mut Outcome) 
             } else {
                 let bad_rst: Vec<(u32, u32)> = after.iter().filter_map(|f| if let Ok(Frame::Rst { stream, code }) = &f.frame { if *code != 0 { Some((*stream, *code)) } else { None } } else { None }).collect();
                 if !bad_rst.is_empty() {
-                    out.fail("C09", "tolerance/rst", sig("legal-traffic-resets-stream"), format!("{} in state {}: permitted by the RFC, yet RST_STREAM {:?} followed — {}", inj.item, inj.state, bad_rst, inj.basis));
+                    out.fail(prop, "tolerance/rst", sig("legal-traffic-resets-stream"), format!("{} in state {}: permitted by the RFC, yet RST_STREAM {:?} followed — {}", inj.item, inj.state, bad_rst, inj.basis));
                 } else if !probe_answered && rr.obs.script_done && rr.run.panic.is_none() {
-                    out.fail("C09", "tolerance/service", sig("no-service-after-legal-traffic"), format!("{}: the following plain request on stream {} was not answered", inj.item, case.probe_stream));
+                    out.fail(prop, "tolerance/service", sig("no-service-after-legal-traffic"), format!("{}: the following plain request on stream {} was not answered", inj.item, case.probe_stream));
                 }
             }
         }
@@ -551,4 +598,409 @@ pub fn dump_raw(case: &RawCase) {
     crate::eng_pair::dump_lines(&an.tap, &rr.run);
     println!("inject={:?}", case.inject);
     println!("obs: marks={:?} barriers={:?} script_done={} e_closed={} e_streams={:?}", rr.obs.marks, rr.obs.barriers_done, rr.obs.script_done, rr.obs.e_closed, rr.obs.e_streams);
+}
+
+// ------------------------------------------------------------ C13: HTTP validity, h2 server receives generated requests
+
+use crate::refmodel::hpack::Field;
+use crate::refmodel::http::{self, Kind as HKind};
+
+fn fl(v: &[(String, String)]) -> Vec<Field> {
+    v.iter().map(|(n, x)| Field::new(n.as_bytes(), x.as_bytes())).collect()
+}
+
+/// Apply one generated mutation to a header list; returns its label.
+fn mutate_fields(t: &mut Tape, f: &mut Vec<(String, String)>, request: bool) -> &'static str {
+    let pseudo_idx: Vec<usize> = f.iter().enumerate().filter(|(_, x)| x.0.starts_with(':')).map(|(i, _)| i).collect();
+    match t.below(14) {
+        0 if !pseudo_idx.is_empty() => {
+            let i = *t.pick(&pseudo_idx);
+            f.remove(i);
+            "drop-pseudo"
+        }
+        1 if !pseudo_idx.is_empty() => {
+            let i = *t.pick(&pseudo_idx);
+            let x = f[i].clone();
+            f.insert(i + 1, x);
+            "duplicate-pseudo"
+        }
+        2 if !pseudo_idx.is_empty() => {
+            let i = *t.pick(&pseudo_idx);
+            let x = f.remove(i);
+            f.push(x);
+            "pseudo-after-regular"
+        }
+        3 => {
+            f.insert(0, (":foo".into(), "bar".into()));
+            "unknown-pseudo"
+        }
+        4 => {
+            if request {
+                f.insert(0, (":status".into(), "200".into()));
+            } else {
+                f.insert(0, (":path".into(), "/".into()));
+            }
+            "wrong-direction-pseudo"
+        }
+        5 => {
+            f.push(("X-Upper".into(), "1".into()));
+            "uppercase-name"
+        }
+        6 => {
+            let n = *t.pick(&["connection", "keep-alive", "proxy-connection", "transfer-encoding", "upgrade"]);
+            f.push((n.into(), if n == "transfer-encoding" { "chunked".into() } else { "x".into() }));
+            "connection-specific"
+        }
+        7 => {
+            f.push(("te".into(), t.pick(&["trailers", "gzip", "trailers, deflate", ""]).to_string()));
+            "te"
+        }
+        8 => {
+            if let Some(p) = f.iter_mut().find(|x| x.0 == ":path") {
+                p.1 = String::new();
+            }
+            "empty-path"
+        }
+        9 if request => {
+            f.insert(pseudo_idx.len(), (":protocol".into(), "websocket".into()));
+            "add-protocol"
+        }
+        10 if request => {
+            if let Some(m) = f.iter_mut().find(|x| x.0 == ":method") {
+                m.1 = "CONNECT".into();
+            }
+            "method-connect"
+        }
+        11 => {
+            // a valid oddity: unusual but legal regular fields
+            f.push(("x-odd".into(), "a, b;c=d".into()));
+            f.push(("accept".into(), "".into()));
+            "legal-odd-fields"
+        }
+        12 => {
+            f.push(("cookie".into(), "a=b".into()));
+            f.push(("cookie".into(), "c=d".into()));
+            "legal-cookie-crumbs"
+        }
+        _ => "none",
+    }
+}
+
+pub fn gen_http_server(tapes: &[Vec<u32>]) -> RawCase {
+    let mut t = Tape::new(&tapes[0]);
+    let cfg = plain_cfg();
+    let mut script: Vec<PStep> = vec![PStep::Barrier];
+    let s = 1u32;
+    // base shape
+    let shape = *t.pick(&["get", "post", "post-cl", "connect", "ext-connect", "get-cl0"]);
+    let mut fields: Vec<(String, String)> = match shape {
+        "connect" => vec![(":method".into(), "CONNECT".into()), (":authority".into(), "example.com:443".into())],
+        "ext-connect" => vec![(":method".into(), "CONNECT".into()), (":scheme".into(), "https".into()), (":authority".into(), "example.com".into()), (":path".into(), "/chat".into()), (":protocol".into(), "websocket".into())],
+        "post" | "post-cl" => vec![(":method".into(), "POST".into()), (":scheme".into(), "https".into()), (":authority".into(), "example.com".into()), (":path".into(), "/s/1".into())],
+        _ => vec![(":method".into(), "GET".into()), (":scheme".into(), "https".into()), (":authority".into(), "example.com".into()), (":path".into(), "/s/1".into())],
+    };
+    fields.push(("x-id".into(), "1".into()));
+    let has_body = matches!(shape, "post" | "post-cl" | "connect");
+    let data_len: usize = if has_body { *t.pick(&[0usize, 1, 5, 100, 3000]) } else { 0 };
+    let mut cl_label = "no-content-length";
+    if shape == "post-cl" || shape == "get-cl0" || t.chance(1, 6) {
+        let (v, l): (String, &'static str) = match t.below(7) {
+            0 | 1 => (data_len.to_string(), "cl-equal"),
+            2 => ((data_len + 1 + t.below(5)).to_string(), "cl-more-than-data"),
+            3 if data_len > 0 => ((data_len - 1).to_string(), "cl-less-than-data"),
+            4 => ("12x".into(), "cl-unparsable"),
+            5 => ("-1".into(), "cl-unparsable"),
+            _ => (data_len.to_string(), "cl-equal"),
+        };
+        fields.push(("content-length".into(), v));
+        cl_label = l;
+        if t.chance(1, 8) {
+            fields.push(("content-length".into(), (data_len + 7).to_string()));
+            cl_label = "cl-two-differing";
+        }
+    }
+    // at most one mutation per header section: reason sets stay (near) singletons, so that each
+    // leniency has its own signature
+    let nm = t.weighted(&[3, 5]);
+    let mut labels: Vec<&'static str> = Vec::new();
+    for _ in 0..nm {
+        let l = mutate_fields(&mut t, &mut fields, true);
+        if l != "none" {
+            labels.push(l);
+        }
+    }
+    // trailers
+    let mut trailers: Option<(Vec<(String, String)>, bool, &'static str)> = None;
+    if has_body && t.chance(1, 3) {
+        let mut tf = vec![("x-t".to_string(), "1".to_string())];
+        let mut lab = "trailers-valid";
+        let mut es = true;
+        match t.below(4) {
+            0 => {
+                tf.insert(0, (":status".into(), "200".into()));
+                lab = "trailers-with-pseudo";
+            }
+            1 => {
+                es = false;
+                lab = "trailers-without-end-stream";
+            }
+            _ => {}
+        }
+        trailers = Some((tf, es, lab));
+    }
+    let verdict = http::check(HKind::Request, &fl(&fields), !has_body, false);
+    let head_ok = verdict.is_valid();
+    let body_ok = http::body_agrees(&verdict, data_len as u64, false);
+    let tr_ok = trailers.as_ref().map(|(tf, es, _)| http::check(HKind::Trailers, &fl(tf), *es, false).is_valid()).unwrap_or(true);
+    // script
+    script.push(PStep::Mark("inject".into()));
+    let splits = if t.chance(1, 3) { vec![1 + t.below(40), 3 + t.below(80)] } else { vec![] };
+    script.push(PStep::Headers { stream: s, fields: fields.clone(), end_stream: !has_body, splits, pad: None, prio: None, enc: t.below(3) as u8 });
+    if has_body {
+        let end_on_data = trailers.is_none();
+        if data_len > 0 && t.bool() {
+            let k = 1 + t.below(data_len);
+            script.push(PStep::Data { stream: s, len: k, pad: None, end_stream: false, force: false });
+            script.push(PStep::Data { stream: s, len: data_len - k, pad: if t.chance(1, 4) { Some(3) } else { None }, end_stream: end_on_data, force: false });
+        } else {
+            script.push(PStep::Data { stream: s, len: data_len, pad: None, end_stream: end_on_data, force: false });
+        }
+        if let Some((tf, es, _)) = &trailers {
+            script.push(PStep::Headers { stream: s, fields: tf.clone(), end_stream: *es, splits: vec![], pad: None, prio: None, enc: 0 });
+        }
+    }
+    let mut item = format!("request:{}:{}", shape, cl_label);
+    for l in &labels {
+        item.push(':');
+        item.push_str(l);
+    }
+    if let Some((_, _, l)) = &trailers {
+        item.push(':');
+        item.push_str(l);
+    }
+    let reasons = verdict.malformed.join("+");
+    let mut inj = Inject {
+        item,
+        state: if head_ok { if body_ok && tr_ok { "valid".into() } else if !body_ok { format!("content-length-mismatch:{}", cl_label) } else { trailers.as_ref().map(|x| x.2.to_string()).unwrap_or_default() } } else { reasons.clone() },
+        class: Class::Legal,
+        stream: s,
+        basis: "RFC 9113 §8.1.1 malformed messages; §8.2 field validity; §8.3 pseudo-header rules; §8.5 CONNECT".into(),
+        never_surface: vec![],
+        must_deliver: vec![],
+        no_head: vec![],
+        no_clean_end: vec![],
+        prop: "C13".into(),
+        wire_optional: false,
+    };
+    if !head_ok {
+        inj.class = Class::Stream;
+        inj.never_surface = vec![s];
+        inj.no_head = vec![1];
+        inj.no_clean_end = vec![1];
+    } else if !body_ok || !tr_ok {
+        inj.class = Class::Stream;
+        inj.no_clean_end = vec![1];
+        // the server's own END_STREAM may already have closed the stream both ways: then the error only
+        // shows on the handle
+        inj.wire_optional = true;
+    } else {
+        inj.must_deliver = vec![(1, data_len)];
+    }
+    let probe = 3u32;
+    script.push(PStep::Mark("after".into()));
+    script.push(PStep::Barrier);
+    script.push(hdr(probe, "GET", true));
+    script.push(PStep::WaitEnd(probe));
+    script.push(PStep::Barrier);
+    let spec = RawSpec { peer_settings: vec![], script, grant: Grant::Eager, close_at_end: true };
+    let base = base_case(&mut t, tapes, cfg, vec![]);
+    RawCase { h2_side: Side::Server, base, spec, inject: Some(inj), probe_stream: probe }
+}
+
+pub fn gen_http_client(tapes: &[Vec<u32>]) -> RawCase {
+    let mut t = Tape::new(&tapes[0]);
+    let cfg = plain_cfg();
+    let method = *t.pick(&["GET", "GET", "HEAD", "POST"]);
+    let mut r1 = default_req(1);
+    r1.method = method.into();
+    let mut r2 = default_req(2);
+    r2.delay = 60;
+    let reqs = vec![r1, r2];
+    let mut script: Vec<PStep> = vec![PStep::Barrier, PStep::WaitStreams(1), PStep::Mark("inject".into())];
+    // interim responses
+    let n_interim = if t.chance(1, 4) { 1 + t.below(2) } else { 0 };
+    let mut interim_bad = false;
+    for i in 0..n_interim {
+        let es = t.chance(1, 8);
+        if es {
+            interim_bad = true;
+        }
+        script.push(PStep::Respond { nth: 0, fields: vec![(":status".into(), if i == 0 { "103".into() } else { "100".into() }), ("x-i".into(), i.to_string())], end_stream: es, splits: vec![] });
+        if es {
+            break;
+        }
+    }
+    let status = *t.pick(&["200", "200", "204", "304", "404", "500"]);
+    let mut fields: Vec<(String, String)> = vec![(":status".into(), status.into()), ("x-r".into(), "1".into())];
+    let no_body_status = status == "204" || status == "304";
+    let data_len: usize = if method == "HEAD" || no_body_status { if t.chance(1, 6) { 5 } else { 0 } } else { *t.pick(&[0usize, 1, 5, 100, 3000]) };
+    let mut cl_label = "no-content-length";
+    if t.chance(1, 2) {
+        let (v, l): (String, &'static str) = match t.below(6) {
+            0 | 1 => (data_len.to_string(), "cl-equal"),
+            2 => ((data_len + 1 + t.below(5)).to_string(), "cl-more-than-data"),
+            3 if data_len > 0 => ((data_len - 1).to_string(), "cl-less-than-data"),
+            4 if method != "HEAD" => ("1 2".into(), "cl-unparsable"),
+            _ => (data_len.to_string(), "cl-equal"),
+        };
+        fields.push(("content-length".into(), v));
+        cl_label = l;
+        // (not for HEAD: h2 does not look at content-length of a HEAD response at all, and the RFC ties
+        // the field to a body that is not there — no demand)
+        if method != "HEAD" && t.chance(1, 8) {
+            fields.push(("content-length".into(), (data_len + 7).to_string()));
+            cl_label = "cl-two-differing";
+        }
+    }
+    let nm = t.weighted(&[3, 5]);
+    let mut labels: Vec<&'static str> = Vec::new();
+    for _ in 0..nm {
+        let l = mutate_fields(&mut t, &mut fields, false);
+        if l != "none" {
+            labels.push(l);
+        }
+    }
+    let mut trailers: Option<(Vec<(String, String)>, bool, &'static str)> = None;
+    if data_len > 0 && t.chance(1, 3) {
+        let mut tf = vec![("x-t".to_string(), "1".to_string())];
+        let mut lab = "trailers-valid";
+        let mut es = true;
+        match t.below(4) {
+            0 => {
+                tf.insert(0, (":status".into(), "200".into()));
+                lab = "trailers-with-pseudo";
+            }
+            1 => {
+                es = false;
+                lab = "trailers-without-end-stream";
+            }
+            _ => {}
+        }
+        trailers = Some((tf, es, lab));
+    }
+    let head_es = data_len == 0 && trailers.is_none() && t.bool();
+    let verdict = http::check(HKind::Response, &fl(&fields), head_es, false);
+    let head_ok = verdict.is_valid() && !interim_bad;
+    let exempt = method == "HEAD" || no_body_status;
+    let body_ok = http::body_agrees(&verdict, data_len as u64, exempt) && !(exempt && data_len > 0 && false);
+    let tr_ok = trailers.as_ref().map(|(tf, es, _)| http::check(HKind::Trailers, &fl(tf), *es, false).is_valid()).unwrap_or(true);
+    if !interim_bad {
+        let splits = if t.chance(1, 3) { vec![1 + t.below(10)] } else { vec![] };
+        script.push(PStep::Respond { nth: 0, fields: fields.clone(), end_stream: head_es, splits });
+        if !head_es {
+            let end_on_data = trailers.is_none();
+            script.push(PStep::RespondData { nth: 0, len: data_len, pad: if t.chance(1, 5) { Some(2) } else { None }, end_stream: end_on_data });
+            if let Some((tf, es, _)) = &trailers {
+                script.push(PStep::Respond { nth: 0, fields: tf.clone(), end_stream: *es, splits: vec![] });
+            }
+        }
+    }
+    let mut item = format!("response:{}:{}:{}", method, status, cl_label);
+    if n_interim > 0 {
+        item.push_str(if interim_bad { ":interim-with-end-stream" } else { ":interim" });
+    }
+    for l in &labels {
+        item.push(':');
+        item.push_str(l);
+    }
+    if let Some((_, _, l)) = &trailers {
+        item.push(':');
+        item.push_str(l);
+    }
+    let mut reasons = verdict.malformed.join("+");
+    if interim_bad {
+        reasons = "interim-response-with-end-stream".into();
+    }
+    // an exempt response (HEAD/204/304) that nevertheless carries DATA: RFC leaves the reaction open
+    // … and so is one that carries a non-zero content-length and ends with an (empty) DATA frame instead of
+    // END_STREAM on HEADERS (RFC allows, h2 rejects): no demand either way
+    let cl_nonzero = verdict.content_lengths.iter().any(|c| matches!(c, Some(n) if *n != 0));
+    let either = exempt && (data_len > 0 || (cl_nonzero && !head_es));
+    let mut inj = Inject {
+        item,
+        state: if head_ok { if body_ok && tr_ok { "valid".into() } else if !body_ok { format!("content-length-mismatch:{}", cl_label) } else { trailers.as_ref().map(|x| x.2.to_string()).unwrap_or_default() } } else { reasons },
+        class: Class::Legal,
+        stream: 1,
+        basis: "RFC 9113 §8.1 (message framing, interim responses), §8.1.1 malformed messages, §8.2, §8.3.2 response pseudo-header".into(),
+        never_surface: vec![],
+        must_deliver: vec![],
+        no_head: vec![],
+        no_clean_end: vec![],
+        prop: "C13".into(),
+        wire_optional: false,
+    };
+    if either {
+        inj.class = Class::Either;
+    } else if !head_ok {
+        inj.class = Class::Stream;
+        inj.no_head = if interim_bad { vec![] } else { vec![1] };
+        inj.no_clean_end = vec![1];
+        // the client's request may be complete and the malformed frame carries END_STREAM: closed both ways
+        inj.wire_optional = true;
+    } else if !body_ok || !tr_ok {
+        inj.class = Class::Stream;
+        inj.no_clean_end = vec![1];
+        inj.wire_optional = true;
+    } else {
+        inj.must_deliver = vec![(1, data_len)];
+    }
+    script.push(PStep::Mark("after".into()));
+    script.push(PStep::Barrier);
+    script.push(PStep::WaitStreams(2));
+    script.push(PStep::Respond { nth: 1, fields: vec![(":status".into(), "200".into())], end_stream: true, splits: vec![] });
+    script.push(PStep::Barrier);
+    let spec = RawSpec { peer_settings: vec![], script, grant: Grant::Eager, close_at_end: false };
+    let mut base = base_case(&mut t, tapes, cfg, reqs);
+    base.drop_send_request_at_end = true;
+    RawCase { h2_side: Side::Client, base, spec, inject: Some(inj), probe_stream: 2 }
+}
+
+pub struct HttpEngine {
+    pub server: bool,
+}
+
+impl Engine for HttpEngine {
+    type Case = RawCase;
+    fn name(&self) -> &'static str {
+        if self.server {
+            "raw-http-server"
+        } else {
+            "raw-http-client"
+        }
+    }
+    fn tape_lens(&self) -> Vec<usize> {
+        vec![120, 301, 242]
+    }
+    fn gen(&self, tapes: &[Vec<u32>]) -> RawCase {
+        if self.server {
+            gen_http_server(tapes)
+        } else {
+            gen_http_client(tapes)
+        }
+    }
+    fn rule(&self) -> String {
+        "header sections from a grammar (request/response/interim/trailers shape + 0–2 mutations: drop/duplicate/move/unknown/wrong-direction pseudo-header, uppercase, connection-specific, TE, empty :path, :protocol, CONNECT forms, content-length vs DATA incl. HEAD/204/304) sent by the reference peer, CONTINUATION splits and read chunking generated; verdict from the RFC 9113 §8 predicate (refmodel::http): malformed ⇒ never delivered as valid / never a clean end, valid ⇒ delivered completely; non-trivial = the message was delivered to the endpoint; distinct (shape, mutation set) pairs are listed in the class histogram".into()
+    }
+    fn shrink_iters(&self) -> u32 {
+        400
+    }
+    fn run(&self, case: &RawCase) -> Outcome {
+        let rr = run_raw(case);
+        let an = analyse_raw(case, &rr);
+        let mut out = Outcome::default();
+        common_raw_oracles(case, &rr, &an, &mut out);
+        check_c09(case, &rr, &an, &mut out);
+        out.note = format!("{} wire frames, {} API events, end={:?}, script_done={}", an.tap.frames.len(), rr.run.events.len(), rr.run.end, rr.obs.script_done);
+        out
+    }
 }
